@@ -147,3 +147,29 @@ def special(kind, value):
     v = ct.BytesType(bytes(value))
     text = json.loads(json.dumps([v], cls=CELJSONEncoder))[0]
     return base64.b64decode(text) == bytes(value) and text == base64.b64encode(bytes(value)).decode(), f"bytes {value[:8]} encode as {text[:40]!r}"
+
+
+def time_text(what, vals):
+    """JSON encoding of a whole-second timestamp (instant es seconds, display offset o minutes) / duration (ds seconds)"""
+    import datetime
+    import re
+    from celpy import celtypes as ct
+    from celpy.adapter import CELJSONEncoder
+    from . import c11
+    if what == "duration-text":
+        ds = vals["ds"]
+        d = ct.DurationType(datetime.timedelta(days=ds // 86400, seconds=ds % 86400))
+        text = json.loads(json.dumps([d], cls=CELJSONEncoder))[0]
+        return text == f"{ds}s", f"duration of {ds} s encodes as {text!r}"
+    es, o = vals["es"], vals["o"]
+    t = c11._timestamp(es * 10**6, o)
+    text = json.loads(json.dumps([t], cls=CELJSONEncoder))[0]
+    m = re.fullmatch(r"(\d{4})-(\d\d)-(\d\d)T(\d\d):(\d\d):(\d\d)(Z|[+-]\d\d:\d\d)", text) if isinstance(text, str) else None
+    if not m:
+        return False, f"timestamp {es} s at offset {o} min encodes as {text!r}, which is not RFC 3339 date-time text"
+    y, mo, d, h, mi, sec = (int(g) for g in m.groups()[:6])
+    off = 0 if m.group(7) == "Z" else (-1 if m.group(7)[0] == "-" else 1) * (int(m.group(7)[1:3]) * 60 + int(m.group(7)[4:6]))
+    if not (1 <= mo <= 12 and 1 <= d <= 31 and h < 24 and mi < 60 and sec < 60):
+        return False, f"timestamp encodes as {text!r}: field out of range"
+    inst = ((c11.ordinal(y, mo, d) - c11.EPOCH_ORD) * 86400 + h * 3600 + mi * 60 + sec) - off * 60
+    return inst == es, f"timestamp for the instant {es} s (shown at offset {o} min) encodes as {text!r}, which denotes the instant {inst} s"
